@@ -146,8 +146,9 @@ CHECKS.update({
          "the concatenated events are always a prefix of the canonical log and the end is reported exactly when all of it was produced. The real "
          "Player runs over a recording AY backend with random logs, rates, player frequencies and buffer lengths; VtxTrace checks every call's "
          "writes/samples/return value/buffer contents. The real AymPrecise backend must give bit-identical streams under three chunkings, and the "
-         "four repository files must decode to the transposition of their LH5 payload."),
-   note="Trusted: TLC, delharc for decompressing the reference payload. Decode half limited to the four repository files (no LH5 encoder)."),
+         "four repository files, and generated files of 1..131077 frames (stored-literal LH5 streams, contents a function the spec knows), must "
+         "decode to the transposition of their payload."),
+   note="Trusted: TLC, delharc for decompressing the reference payload of the repository files."),
 })
 CHECKS.update({
  "C19": dict(
@@ -176,10 +177,11 @@ CHECKS.update({
    text=("Emu.tla models emulate_frames over an abstract deterministic machine; MC_Emu explores every sequence of FrameCount(n) / Max (any stopwatch verdicts) "
          "calls with breakpoints on any subset of instruction numbers and checks that the machine is a function of the instructions executed alone and "
          "that every completed frame is handed to the host or still pending (also when it ends at a breakpoint). The real emulator runs the same scenario "
-         "(ROM boot, real-time tape, key script) under 13 drivings - repeated, random FrameCount partitions, Max mode, breakpoint stop/resume incl. "
-         "single-stepping, sound off, audio never drained, four asset implementations - and EmuTrace requires the digest of registers, clock, all RAM, "
+         "(ROM boot with a tape and a key script; tape inserted with the autoload snapshot and fast loading) under 18 drivings - repeated, random "
+         "FrameCount partitions, Max mode, breakpoint stop/resume every k instructions, after every instruction and inside FrameCount(n) calls with speed "
+         "re-selection at stops, a different way of driving for every call, sound off, audio never drained, four asset implementations - and EmuTrace requires the digest of registers, clock, all RAM, "
          "both frame buffers, border and paging (and the audio stream where comparable) to depend on (scenario, frame) only."),
-   note="Trusted: TLC, a 64-bit FNV digest (collisions ignored), the RAM-bank hook. Two to six scenarios per shard."),
+   note="Trusted: TLC, a 64-bit FNV digest (collisions ignored), the RAM-bank hook. Four to eight scenarios per shard."),
 })
 CHECKS.update({
  "C15": dict(
